@@ -287,3 +287,9 @@ package goose
 //@ func ffiHeaderFooter
 //@   ensures [no FFI: generic ext_types section with its closing footer] ffi == "none" ==> result.0 == "Section code.\nContext `{ext_ty: ext_types}.\nLocal Coercion Var' s: expr := Var s." && result.1 == "\nEnd code.\n"
 //@   ensures [FFI prelude import, no footer] ffi != "none" ==> result.0 == "From Perennial.goose_lang Require Import ffi." + ffi + "_prelude." && result.1 == ""
+
+//@ props C17
+//@ func newPackageConfig
+//@   ensures [packages are loaded from -dir with the goose build tag] result.Dir == modDir && len(result.BuildFlags) == 2 && result.BuildFlags[0] == "-tags" && result.BuildFlags[1] == "goose"
+//@   ensures [names, files, imports, types and syntax are loaded] result.Mode & (packages.NeedName | packages.NeedCompiledGoFiles | packages.NeedImports | packages.NeedTypes | packages.NeedSyntax | packages.NeedTypesInfo) == (packages.NeedName | packages.NeedCompiledGoFiles | packages.NeedImports | packages.NeedTypes | packages.NeedSyntax | packages.NeedTypesInfo)
+//@   noframe
